@@ -1,7 +1,7 @@
 (* Props/C04.v - Packet framing is lossless for every payload size and every stream segmentation.
    Only property theorems here, each closed by [exact]; see Proofs/WireProofs.v for the proofs. *)
 From Coq Require Import List NArith Lia Bool.
-From MM Require Import Lib.Bytes Model.Wire Proofs.WireProofs Gen.FactsStream Gen.FactsControl.
+From MM Require Import Lib.Bytes Model.Wire Proofs.WireProofs Gen.FactsStream Gen.FactsControl Gen.FactsConn.
 From MM Require Import Gen.FactsOutline.
 Import ListNotations.
 Open Scope N_scope.
@@ -14,7 +14,8 @@ Theorem c04_source_constants :
   translated_stream = true /\ stream_write_drop = M /\ stream_write_cont = M /\ stream_read_cont = M /\
   stream_len_mask = 2 ^ 24 - 1 /\ stream_seq_mask = 255 * 2 ^ 24 /\ stream_seq_shift = 24 /\
   stream_seq_size = 256 /\ stream_header_size = 4 /\ types_uint3_le = true /\
-  (0 <? M) = true /\ (M <? 2 ^ 24) = true /\ utils_seq_ok = true.
+  (0 <? M) = true /\ (M <? 2 ^ 24) = true /\ utils_seq_ok = true /\
+  stream_mysqlstream_write_ok = true /\ stream_mysqlstream_drain_ok = true /\ stream_mysqlstream_start_tls_ok = true.
 Proof. repeat split; vm_compute; reflexivity. Qed.
 
 (* the modules this property rests on define the functions, classes, methods and class-level names they defined when the
